@@ -513,6 +513,7 @@ pub fn models(tier: Tier, seed: u64) -> Vec<Box<dyn DynModel>> {
         v.push(bounded(M08::<Bls12381G1Impl>::new(tier, seed), 300));
         v.push(bounded(M08::<Bls12381G2Impl>::new(tier, seed), 300));
     }
+    v.extend(crate::props::tsurf::models("C08", tier, seed));
     v
 }
 
